@@ -36,7 +36,9 @@ ASSUMPTIONS = [
     'files are produced by the harness\'s writer, not by Excel (rich text, '
     'array formulas, external links are not modelled)',
     'for constant error cells (t="e") only presence and the code text are '
-    'asserted; names are only bound to stored cells of non-ignored sheets',
+    'asserted; single-cell names are bound to stored cells, range names may '
+    'cover unstored addresses and ignored sheets (they create no cells: '
+    'blank extra cells are tolerated only under ranges written in formulas)',
 ]
 CASE_LIMIT_S = 60
 SHEETS = ['Sheet1', 'Data', 'My Sheet', "It's", 'Q-1', u'Blätter', '2024']
@@ -291,8 +293,8 @@ def _judge(case):
     wb = {'sheets': [{'name': s['name'], 'cells': {
         a: {k: v for k, v in c.items() if k != 'expect'}
         for a, c in s['cells'].items()}} for s in sheets],
-        'names': [{'name': n['name'], 'ref': n['ref']} for n in wbnames
-                  if n['sheet'] not in ignore],
+        # (names pointing into ignored sheets stay in the workbook)
+        'names': [{'name': n['name'], 'ref': n['ref']} for n in wbnames],
         'date1904': bool(case.get('d1904'))}
     kinds = {c['kind'] for s in sheets for c in s['cells'].values()}
     shared = any(k.startswith('shared') for k in kinds)
@@ -330,8 +332,30 @@ def _judge(case):
         res.fail('stored-cell-missing:%s' % want[missing[0]]['kind'],
                  missing[:5], 'absent')
         return res
+    # (blank extras only where a range WRITTEN IN A FORMULA covers an
+    # unstored address; a defined name creates no cells)
+    covered = set()
+    import re
+    rx = re.compile(r"(?:('(?:[^']|'')+'|[A-Za-z0-9_.]+)!)?"
+                    r"\$?([A-Z]{1,3})\$?(\d+):\$?([A-Z]{1,3})\$?(\d+)")
+    for a_, c_ in want.items():
+        ftxt = c_.get('expect') or c_.get('f')
+        if not ftxt or not c_['kind'].startswith(('f', 'shared')):
+            continue
+        for mo in rx.finditer(ftxt):
+            sh_ = mo.group(1) or a_.rsplit('!', 1)[0]
+            if sh_.startswith("'"):
+                sh_ = sh_[1:-1].replace("''", "'")
+            ca, cb = sorted((R.col_to_num(mo.group(2)),
+                             R.col_to_num(mo.group(4))))
+            ra, rb = sorted((int(mo.group(3)), int(mo.group(5))))
+            if (cb - ca + 1) * (rb - ra + 1) > 5000:
+                continue
+            for r_ in range(ra, rb + 1):
+                for k_ in range(ca, cb + 1):
+                    covered.add('%s!%s%d' % (sh_, R.num_to_col(k_), r_))
     extra = [a for a, c in model.cells.items() if a not in want and not (
-        c.formula is None and c.value in (None, ''))]
+        c.formula is None and c.value in (None, '') and a in covered)]
     if extra:
         bad = 'ignored-sheet' if any(
             a.rsplit('!', 1)[0] in ignore for a in extra) else 'unstored'
